@@ -623,8 +623,10 @@ class Exec:
         s.solver.push(); s.solver.add(*q); r = s.solver.check(); s.solver.pop(); s.nq += 1; s.tq += time.time() - t
         if r == z3.unknown:
             from . import smt
-            t = time.time(); rr, _, info = smt.solve(q, 90, z3_first_s=1); s.tq += time.time() - t
-            if rr == 'unknown': raise Unsupported('solver unknown on path feasibility')
+            t = time.time(); rr, _, info = smt.solve(q, getattr(s, 'feasibility_timeout_s', 90), z3_first_s=1); s.tq += time.time() - t
+            if rr == 'unknown':
+                if getattr(s, 'unknown_is_feasible', False): s.nunknown = getattr(s, 'nunknown', 0) + 1; return True    # explore it: an infeasible path only adds vacuous obligations
+                raise Unsupported('solver unknown on path feasibility')
             return rr == 'sat'
         return r == z3.sat
     # ---------- CFG helpers (ipdom for merging)
